@@ -294,8 +294,8 @@ func ruleStickyEnd(c *Ctx, r *R) {
 		}
 		pf := &PF{N: 3} // 0 = predicate not known false, 1 = predicate false & done not set, 2 = predicate false & done set
 		pf.Edge = func(f *ssa.Function, g guard, q int) (StateSet, bool) {
-		b := g.blk
-		_ = b
+			b := g.blk
+			_ = b
 			v, val := g.boolVal()
 			if v == okVal && !val && q == 0 {
 				return ss(1), true
